@@ -48,13 +48,15 @@ def match_finding(findings, job, trace, verdict, at):
     return None
 
 
-def plans(fmt, num, seed, stmts=3, tokens=30):
+def plans(fmt, num, seed, stmts=3, tokens=30, small=False):
     """behaviours of the writer machine TurtleSpelling.tla, exported by TLC in simulation mode"""
     d = tlc.scratch("rvf-gen-")
     try:
         cfg = os.path.join(d, "gen.cfg")
         consts = {"NNs": "3", "Locals": tlc.tla_set(["x", "y"]), "NLit": "4", "ShortLits": "{1, 2}", "Pfx": tlc.tla_set(["", "p", "q"]),
                   "MaxStmts": str(stmts), "MaxDepth": "2", "MaxTokens": str(tokens)}
+        if small:      # few IRIs and literals: labelled blank nodes recur across statements and graph blocks
+            consts.update({"NNs": "1", "Locals": tlc.tla_set(["x"]), "NLit": "1", "ShortLits": "{1}", "Pfx": tlc.tla_set(["p"])})
         consts.update(GEN[fmt])
         tlc.write_cfg(cfg, spec="Spec", constants=consts, constraints=["Export"])
         r, items = tlc.export_json("TurtleSpelling", cfg, timeout=900, extra=["-simulate", "num=%d" % num, "-depth", "120", "-seed", str(seed)])
@@ -90,6 +92,10 @@ def run(out, tier, seed):
         out.extra["plans_" + fmt] = len(ps)
         if quick:
             ps = ps[:260]
+        if fmt in ("trig", "nquads", "turtle"):
+            r, ps2 = plans(fmt, n // 2, seed * 11 + len(fmt), stmts=4, tokens=24 if fmt != "nquads" else 16, small=True)
+            out.extra["plans_small_" + fmt] = len(ps2)
+            ps = ps + (ps2[:120] if quick else ps2)
         for pi, p in enumerate(ps):
             for v in range(2):
                 routes = ROUTES if (pi + v) % 5 == 0 else ["str", ROUTES[1 + (pi + v) % (len(ROUTES) - 1)]]
